@@ -95,19 +95,36 @@ def needs : Op → List (Nat × Nat × Level)
   | .grantTtl req _ sec _ _ => [(req, sec, .admin)]
   | .revoke req _ sec => [(req, sec, .admin)]
   | .delegate parent _ secs l _ => secs.map fun sec => (parent, sec, l)
-  | .list .. | .undelegate .. | .addMember .. | .delMember .. => []
+  | .getVersion req sec _ => [(req, sec, .read)]
+  | .versions req sec => [(req, sec, .read)]
+  | .rollback req sec _ => [(req, sec, .read), (req, sec, .write)]
+  | .wrap req sec => [(req, sec, .read)]
+  | .list .. | .batchGet .. | .batchSet .. => []      -- per returned entry, see `Backed`
+  | .undelegate .. | .undelegateCascade .. | .addMember .. | .delMember .. | .addEdge .. | .unwrap .. | .reopen => []
+
+/-- what the answer `r` of a successful call `op` rests on, in state `s0`, with `P` a property of the grant edge:
+    every level check the operation needs (read / old version / version count / wrap: Read; overwrite / rotate:
+    Write; rollback: Read and Write; delete / grant / grant-with-ttl / revoke: Admin; delegate: the requested level
+    on every secret), every name `list` returns, every value `batch_get` returns and every entry `batch_set`
+    reports as written — each for a non-root requester — is `Justified` by a grant edge satisfying `P`. -/
+def Backed (s0 : State) (op : Op) (r : Resp) (P : Edge → Prop) : Prop :=
+  (∀ x ∈ needs op, x.1 ≠ root → Justified s0 x.1 x.2.1 x.2.2 P) ∧
+  (∀ req p names, op = .list req p → r = .names names → req ≠ root →
+      ∀ n ∈ names, Justified s0 req n .read P) ∧
+  (∀ req secs items, op = .batchGet req secs → r = .items items → req ≠ root →
+      ∀ p ∈ secs.zip items, ∀ v, p.2 = .val v → Justified s0 req p.1 .read P) ∧
+  (∀ req entries items, op = .batchSet req entries → r = .items items → req ≠ root →
+      ∀ p ∈ entries.zip items, p.2 = .done → Justified s0 req p.1.1 .write P)
 
 /-- PARTIAL (missing: "unexpired" — an arbitrary state need not come from a history, so its TTL tracker need not
-    know the edges' expiries): in EVERY state, a successful read / overwrite / rotate / delete / grant / revoke /
-    delegate by a non-root requester implies a VAULT_ACCESS edge of sufficient attenuated level that is still in the
-    graph after `cleanup_expired_grants` (unrevoked, secret not deleted) at a node reachable over < horizon MEMBER
-    hops; and every name `list` returns to a non-root requester is backed the same way. -/
+    know the edges' expiries): in EVERY state, a successful read / list entry / overwrite / rotate / delete / grant /
+    revoke / delegate / old-version read / rollback / wrap / batch entry by a non-root requester implies a
+    VAULT_ACCESS edge of sufficient attenuated level that is still in the graph after `cleanup_expired_grants`
+    (unrevoked, secret not deleted) at a node reachable over < horizon MEMBER hops. -/
 theorem access_requires_grant_any_state_partial (s : State) (t : Nat) (op : Op)
     (hok : (step s t op).2.isOk = true) :
-    (∀ x ∈ needs op, x.1 ≠ root → Justified (s.cleanup t) x.1 x.2.1 x.2.2 (fun _ => True)) ∧
-    (∀ req p names, op = .list req p → (step s t op).2 = .names names → req ≠ root →
-        ∀ n ∈ names, Justified (s.cleanup t) req n .read (fun _ => True)) := by
-  constructor
+    Backed (s.cleanup t) op (step s t op).2 (fun _ => True) := by
+  refine ⟨?_, ?_, ?_, ?_⟩
   · intro x hx hr
     cases op with
     | set req sec val size =>
@@ -141,49 +158,106 @@ theorem access_requires_grant_any_state_partial (s : State) (t : Nat) (op : Op)
       rw [if_neg hr'] at hp
       obtain ⟨l', e, hw, hl', _⟩ := perm_some_justified hp
       exact ⟨l', e, hw, Nat.le_trans hle hl', trivial⟩
+    | getVersion req sec ver =>
+      simp only [needs, List.mem_singleton] at hx; subst hx
+      simp only [step] at hok; unfold State.getVersion at hok
+      exact guarded_justified hok hr
+    | versions req sec =>
+      simp only [needs, List.mem_singleton] at hx; subst hx
+      simp only [step] at hok; unfold State.versionCount at hok
+      exact guarded_justified hok hr
+    | wrap req sec =>
+      simp only [needs, List.mem_singleton] at hx; subst hx
+      simp only [step] at hok; unfold State.wrap at hok
+      exact guarded_justified hok hr
+    | rollback req sec ver =>
+      simp only [step] at hok; unfold State.rollback at hok
+      simp only [needs, List.mem_cons, List.mem_nil_iff, or_false] at hx
+      rcases hx with rfl | rfl
+      · exact guarded_justified hok hr
+      · -- the inner `set` ran on the state the outer check left (= `cleanup t`) and succeeded
+        have h2 := (guarded_ok hok).2
+        rw [h2, checkAccess_fst, if_neg (show req ≠ root from hr)] at hok
+        split at hok
+        · cases hok
+        · split at hok
+          · cases hok
+          · have := set_ok hok hr
+            rwa [cleanup_cleanup] at this
     | list _ _ => simp only [needs] at hx; cases hx
     | undelegate _ _ => simp only [needs] at hx; cases hx
     | addMember _ _ => simp only [needs] at hx; cases hx
     | delMember _ _ => simp only [needs] at hx; cases hx
+    | addEdge _ _ _ => simp only [needs] at hx; cases hx
+    | batchGet _ _ => simp only [needs] at hx; cases hx
+    | batchSet _ _ => simp only [needs] at hx; cases hx
+    | unwrap _ => simp only [needs] at hx; cases hx
+    | undelegateCascade _ _ => simp only [needs] at hx; cases hx
+    | reopen => simp only [needs] at hx; cases hx
   · intro req p names hop hn hr n hmem
     subst hop
     have := hasAccess_justified (list_names hn n hmem) hr
     rwa [cleanup_cleanup] at this
+  · intro req secs items hop hi hr p hp v hv
+    subst hop
+    simp only [step] at hi; unfold State.batchGet at hi
+    simp only [Resp.items.injEq] at hi
+    subst hi
+    have hp2 := mem_zip_map _ secs p hp
+    rw [hv] at hp2
+    split at hp2
+    · cases hp2
+    · rename_i hc
+      have := (checkAccess_ok (s' := ((s.cleanup t).checkAccess t req p.1 .read).1) (by rw [← hc]) hr).2
+      rwa [cleanup_cleanup] at this
+  · intro req entries items hop hi hr p hp hd
+    subst hop
+    simp only [step] at hi; unfold State.batchSet at hi
+    split at hi
+    · simp only [Resp.items.injEq] at hi; subst hi; simp at hp
+    · simp only [Resp.items.injEq] at hi
+      rw [batchSet_fold_items, List.nil_append] at hi
+      subst hi
+      exact batchItems_justified hr entries s (Same.refl _) p hp hd
 
 /-- non-vacuity: a non-root Write holder overwrites a secret -/
 example : (step (run (init) [(0, .set 0 1 7 3), (0, .grant 0 1 1 .write)]) 1 (.set 1 1 8 3)).2.isOk = true := by decide
 
-/-- FULL.  For every configuration, every history of timed API calls, every time `t` and every operation:
-    if the call succeeds then for each (requester, secret, level) check it needs with a non-root requester — read,
-    overwrite, rotate, delete, grant, grant-with-ttl, revoke, delegate — and for each name a non-root `list`
-    returns, there is a VAULT_ACCESS edge that
+/-- FULL.  For every configuration, every history of timed API calls (including raw graph edges of any kind,
+    batch calls, old-version reads, rollbacks, wrapping, cascading revocation and re-opening the vault over its
+    store), every time `t` and every operation: if the call succeeds then everything its answer rests on (`Backed`:
+    each level check with a non-root requester — read, old-version read, version count, wrap, overwrite, rotate,
+    rollback, delete, grant, grant-with-ttl, revoke, delegate — each name a non-root `list` returns, each value a
+    non-root `batch_get` returns, each entry a non-root `batch_set` reports written) has a VAULT_ACCESS edge that
       * is in the graph the decision was taken on (= the graph before the call minus the grants the TTL tracker
         reports expired at `t`): unrevoked, its secret not deleted;
       * is UNEXPIRED at `t` (`LiveAt t`: the grant that created it was issued with no expiry or with one `> t`);
       * hangs off the requester or off a group reachable from it over fewer than `horizon` MEMBER hops;
       * after signature check, attenuation by distance and capacity gives at least the needed level.
-    Proof: history invariant `TI` (every edge issued with an expiry keeps its tracker entry, through all 12
-    operations) ⇒ after `cleanup_expired_grants` at `t` every remaining edge is live at `t`; every authorisation
-    entry point of the repaired code runs that cleanup first. -/
+    Proof: history invariant `HI` (every edge issued with an expiry keeps its tracker entry through all 22
+    operations, and every tracker entry is in the persisted copy a re-opened vault loads) ⇒ after
+    `cleanup_expired_grants` at `t` every remaining edge is live at `t`; every authorisation entry point of the
+    repaired code runs that cleanup first. -/
 theorem access_requires_live_grant (pol : Policy) (a b c : Nat) (h : List (Nat × Op)) (t : Nat) (op : Op)
     (hok : (step (run (init pol a b c) h) t op).2.isOk = true) :
-    (∀ x ∈ needs op, x.1 ≠ root → Justified ((run (init pol a b c) h).cleanup t) x.1 x.2.1 x.2.2 (LiveAt t)) ∧
-    (∀ req p names, op = .list req p → (step (run (init pol a b c) h) t op).2 = .names names → req ≠ root →
-        ∀ n ∈ names, Justified ((run (init pol a b c) h).cleanup t) req n .read (LiveAt t)) := by
-  have hlive := ((run_inv h _ (init_inv pol a b c)).cleanup t).2
-  obtain ⟨h1, h2⟩ := access_requires_grant_any_state_partial _ t op hok
+    Backed ((run (init pol a b c) h).cleanup t) op (step (run (init pol a b c) h) t op).2 (LiveAt t) := by
+  have hlive := ((run_inv h _ (init_inv pol a b c)).1.cleanup t).2
+  obtain ⟨h1, h2, h3, h4⟩ := access_requires_grant_any_state_partial _ t op hok
   exact ⟨fun x hx hr => (h1 x hx hr).weaken (fun e he _ => hlive e he),
-         fun req p names hop hn hr n hmem => (h2 req p names hop hn hr n hmem).weaken (fun e he _ => hlive e he)⟩
+         fun req p names hop hn hr n hmem => (h2 req p names hop hn hr n hmem).weaken (fun e he _ => hlive e he),
+         fun req secs items hop hi hr p hp v hv => (h3 req secs items hop hi hr p hp v hv).weaken (fun e he _ => hlive e he),
+         fun req es items hop hi hr p hp hd => (h4 req es items hop hi hr p hp hd).weaken (fun e he _ => hlive e he)⟩
 
 /-- FULL, same statement about the state right BEFORE the call (no reference to the cleanup): the live grant
     edge is in the pre-call graph. -/
 theorem access_requires_live_grant_prestate (pol : Policy) (a b c : Nat) (h : List (Nat × Op)) (t : Nat) (op : Op)
     (hok : (step (run (init pol a b c) h) t op).2.isOk = true) :
-    (∀ x ∈ needs op, x.1 ≠ root → Justified (run (init pol a b c) h) x.1 x.2.1 x.2.2 (LiveAt t)) ∧
-    (∀ req p names, op = .list req p → (step (run (init pol a b c) h) t op).2 = .names names → req ≠ root →
-        ∀ n ∈ names, Justified (run (init pol a b c) h) req n .read (LiveAt t)) := by
-  obtain ⟨h1, h2⟩ := access_requires_live_grant pol a b c h t op hok
-  exact ⟨fun x hx hr => (h1 x hx hr).of_cleanup, fun req p names hop hn hr n hmem => (h2 req p names hop hn hr n hmem).of_cleanup⟩
+    Backed (run (init pol a b c) h) op (step (run (init pol a b c) h) t op).2 (LiveAt t) := by
+  obtain ⟨h1, h2, h3, h4⟩ := access_requires_live_grant pol a b c h t op hok
+  exact ⟨fun x hx hr => (h1 x hx hr).of_cleanup,
+         fun req p names hop hn hr n hmem => (h2 req p names hop hn hr n hmem).of_cleanup,
+         fun req secs items hop hi hr p hp v hv => (h3 req secs items hop hi hr p hp v hv).of_cleanup,
+         fun req es items hop hi hr p hp hd => (h4 req es items hop hi hr p hp hd).of_cleanup⟩
 
 /-- non-vacuity and the behaviour around expiry, one history: a Write grant issued at t=0 for 5 time units lets
     identity 1 read, list and overwrite at t=4; at t=10 every path is closed — read, list, overwrite, rotate,
@@ -313,7 +387,7 @@ theorem revoke_expire_delete_immediate :
     simp only [List.mem_filter, decide_eq_true_eq] at he
     exact he.2 hdst
   · intro pol a b c h t
-    have hlive := ((run_inv h _ (init_inv pol a b c)).cleanup t).2
+    have hlive := ((run_inv h _ (init_inv pol a b c)).1.cleanup t).2
     refine ⟨hlive, fun r sec need hr hdead => ⟨?_, ?_⟩⟩
     · intro hc
       have hj := (checkAccess_ok (s' := ((run (init pol a b c) h).checkAccess t r sec need).1)
